@@ -54,6 +54,16 @@ func genSetup(seed uint64, tier, variant string) any {
 		o.Tracking = nil
 		o.NoTouch, o.NoEvict = false, false
 	}
+	// availability-zone discovery changes the setup exchange: with AZFromInfo an INFO SERVER step follows HELLO, without
+	// it the zone comes from the HELLO reply and the exchange is the plain one
+	switch r.IntN(4) {
+	case 0:
+		o.ReplicaAZInfo = true
+	case 1:
+		o.ReplicaAZInfo, o.AZFromInfo = true, true
+	case 2:
+		o.AZFromInfo = r.IntN(2) == 0 // without EnableReplicaAZInfo the option has no effect
+	}
 	p.Sched = SchedSpec{CutProb: pick(r, 0.0, 0.4), MaxSteps: 6000}
 	// which setup step fails on the first connections, and how
 	if enum {
@@ -106,6 +116,7 @@ func execSetup(t *testing.T, plan any, out *Outcome) {
 	e = standardRunSetup(t, out, p, func(e *env) {
 		w := e.sim.W
 		n := w.Nodes[e.addr]
+		n.AZ = "zone-a"
 		switch {
 		case p.Opt.Username != "":
 			n.Users[p.Opt.Username] = p.Opt.Password
